@@ -137,31 +137,9 @@ Result == [data |-> data, err |-> err]
 (* Reference: what the stream decodes to when every read request is served  *)
 (* completely (= the result for the unsegmented stream).                    *)
 (***************************************************************************)
-\* io.ReadFull of n bytes at p: ok / eof / unexpected_eof
-Avail(s, p, n) == IF p + n <= Len(s) THEN "nil" ELSE IF p = Len(s) THEN "eof" ELSE "unexpected_eof"
-RECURSIVE RefLoop(_, _, _)
-RefLoop(s, p, d) ==
-  IF Avail(s, p, 4) # "nil" THEN [data |-> d, err |-> Avail(s, p, 4)]
-  ELSE
-    LET ty == W!U16At(s, p)
-        bl == W!U16At(s, p + 2)
-        t == ty % 32768
-        cr == ty >= 32768
-        q == p + 4
-        n == IF t \in {W!RecNextproto, W!RecAead, W!RecPort, W!RecError} THEN 2 ELSE bl
-        body == SubSeq(s, q + 1, q + n)
-    IN IF t = W!RecEom THEN [data |-> d, err |-> "nil"]
-       ELSE IF t \notin {W!RecNextproto, W!RecAead, W!RecCookie, W!RecServer, W!RecPort, W!RecError} /\ cr
-            THEN [data |-> d, err |-> "critical"]
-       ELSE IF Avail(s, q, n) # "nil" /\ n > 0 THEN [data |-> d, err |-> Avail(s, q, n)]
-       ELSE IF t = W!RecError THEN [data |-> d, err |-> W!KeErrOfCode(W!U16At(body, 0))]
-       ELSE RefLoop(s, q + n,
-              CASE t = W!RecAead -> [d EXCEPT !.algo = W!U16At(body, 0)]
-                [] t = W!RecCookie -> [d EXCEPT !.cookies = Append(@, body)]
-                [] t = W!RecServer -> [d EXCEPT !.server = body]
-                [] t = W!RecPort -> [d EXCEPT !.port = W!U16At(body, 0)]
-                [] OTHER -> d)
-RefDecode(s) == RefLoop(s, 0, W!KeData0)
+\* (the loop is Wire.tla's KeRefDecode: histories of codec calls use it as well)
+Avail(s, p, n) == W!KeAvail(s, p, n)
+RefDecode(s) == W!KeRefDecode(s)
 
 (***************************************************************************)
 (* Property section (C14)                                                  *)
